@@ -44,13 +44,14 @@ theorem gen_hex_ring (k : Nat) : Generated.C18.hexRing k = Model.C18.hexRing k :
     | simp only [Generated.C18.hexRing, Model.C18.hexRing, Generated.C18.hexRingRoll, Generated.C18.hexRingSideLen,
         Generated.C18.hexRingStart, Int.toNat_natCast, gen_hex_dirs.2.1, gen_hex_dirs.2.2]
 
-/-- `_local_window` clamps both axes the way the model does -/
+/-- `_local_window` clamps both axes the way the model does — the clamp is translated AS WRITTEN (two `if`s in sequence or
+`min(max(v, 0), n)`) and proved equal to the model clamp for all integers -/
 theorem gen_window (c ic s n : Int) :
     Generated.C18.windowLoX c ic s n = windowLo c ic s n ∧ Generated.C18.windowHiX c ic s n = windowHi c ic s n ∧
     Generated.C18.windowLoY c ic s n = windowLo c ic s n ∧ Generated.C18.windowHiY c ic s n = windowHi c ic s n := by
   simp only [Generated.C18.windowLoX, Generated.C18.windowHiX, Generated.C18.windowLoY, Generated.C18.windowHiY,
     windowLo, windowHi, clamp] <;>
-  (refine ⟨?_, ?_, ?_, ?_⟩ <;> first | trivial | rfl | (split_ifs <;> omega))
+  (refine ⟨?_, ?_, ?_, ?_⟩ <;> first | trivial | rfl | omega | (split_ifs <;> omega))
 
 /-- structural facts read off the AST: the hexagonal aperture mask is the OR of the local masks written through
 their windows; `compose_opd` accumulates `tile * mask` into `out[window]`; rectangle / offset_circle wiring -/
@@ -178,8 +179,9 @@ theorem window_in_bounds (c ic s n : Int) (hs : 0 ≤ s) (hn : 0 ≤ n) :
       Generated.C18.windowLoX c ic s n = c + ic - s ∧ Generated.C18.windowHiX c ic s n = c + ic + s) ∧
     0 ≤ Generated.C18.windowLoY c ic s n ∧ Generated.C18.windowLoY c ic s n ≤ Generated.C18.windowHiY c ic s n ∧
     Generated.C18.windowHiY c ic s n ≤ n := by
-  simp only [Generated.C18.windowLoX, Generated.C18.windowHiX, Generated.C18.windowLoY, Generated.C18.windowHiY,
-    windowLo, windowHi, clamp]
+  obtain ⟨h1, h2, h3, h4⟩ := gen_window c ic s n
+  rw [h1, h2, h3, h4]
+  simp only [windowLo, windowHi, clamp]
   refine ⟨?_, ?_, ?_, ?_, ?_, ?_, ?_, ?_⟩ <;> split_ifs <;> omega
 
 /-- `samples_per_seg = int(rseg/dx + 2)` is `⌊rseg/dx⌋ + 2` for a non-negative ratio (the offset the model and the driver use),
@@ -744,6 +746,64 @@ theorem keystone_wrap_complete (pi lo arc t : K) (k : ℤ) (hpi : 0 < pi) (ht : 
 example : (0 : ℚ) < 22 / 7 ∧ (-(22 / 7 : ℚ) ≤ -3 ∧ (-3 : ℚ) ≤ 22 / 7) ∧ (-(22 / 7 : ℚ) ≤ 3 ∧ (3 : ℚ) ≤ 22 / 7) ∧ (1 : ℚ) ≤ 2 * (22 / 7) ∧
     ((3 : ℚ) < -3 + 2 * (22 / 7) * (1 : ℤ) ∧ (-3 : ℚ) + 2 * (22 / 7) * (1 : ℤ) < Generated.C18.keyHi 3 3 1) := by
   rw [(gen_keystone_start (22 / 7 : ℚ) 3 3 1 (by norm_num)).2.2.2.2.1]; norm_num
+
+/-- start angle of keystone `k`, arc and default rotation, translated from the ring loop of `_composite_keystone_aperture`
+(`np.radians` is the parameter `rad`), are the model's -/
+theorem gen_keystone_angles (rad : K → K) (pi k nseg rot : K) :
+    Generated.C18.keyAngle rad pi k nseg rot = keyAngle rad pi k nseg rot ∧ Generated.C18.keyArc rad nseg = keyArc rad nseg ∧
+    Generated.C18.keyDefaultRot nseg = keyDefaultRot nseg := by
+  refine ⟨?_, ?_, ?_⟩ <;> first | rfl | (simp only [Generated.C18.keyAngle, Generated.C18.keyArc, Generated.C18.keyDefaultRot, keyAngle, keyArc, keyDefaultRot]; done) | (simp only [Generated.C18.keyAngle, Generated.C18.keyArc, Generated.C18.keyDefaultRot, keyAngle, keyArc, keyDefaultRot]; ring_nf)
+
+/-- with `rad x = x·π/180`: the translated start angles advance by exactly one arc per keystone, `nseg` arcs make one turn, and the
+default rotation (`None`) starts the first keystone one arc after `−π` — for EVERY rotation in degrees and every segment count -/
+theorem keystone_angles_progress (rad : K → K) (pi nseg rot : K) (j : ℕ) (hrad : ∀ x, rad x = x * (pi / 180)) (hn : nseg ≠ 0) :
+    Generated.C18.keyAngle rad pi (j : K) nseg rot = Generated.C18.keyAngle rad pi 0 nseg rot + j * Generated.C18.keyArc rad nseg ∧
+    nseg * Generated.C18.keyArc rad nseg = 2 * pi ∧
+    Generated.C18.keyAngle rad pi 0 nseg (Generated.C18.keyDefaultRot nseg) = Generated.C18.keyArc rad nseg - pi := by
+  simp only [(gen_keystone_angles rad pi _ nseg _).1, (gen_keystone_angles rad pi 0 nseg rot).2.1,
+    (gen_keystone_angles rad pi 0 nseg rot).2.2, keyAngle, keyArc, keyDefaultRot, hrad]
+  refine ⟨by ring, by field_simp; ring, by ring⟩
+
+/-- THE ROTATION FIX PINNED: two different keystones `j < k < N` of one ring, whose arc starts are `a₀ + j·arc` and `a₀ + k·arc` moved by
+ANY whole numbers of turns (what the translated `while` loops do: `gen_keystone_start`), `N·arc = 2π`: no polar angle `t ∈ [−π, π]`
+is in both angular masks (wrap-around branches included) — for every ring rotation `a₀`, however large or negative -/
+theorem keystone_ring_disjoint (pi arc a0 t : K) (N j k : ℕ) (mj mk : ℤ) (hpi : 0 < pi) (harc : 0 < arc)
+    (hN : (N : K) * arc = 2 * pi) (hjk : j < k) (hk : k < N) (ht : -pi ≤ t ∧ t ≤ pi) :
+    ¬ (Generated.C18.keyAng pi (a0 + j * arc + 2 * pi * mj) (a0 + j * arc + 2 * pi * mj + arc) t ∧
+       Generated.C18.keyAng pi (a0 + k * arc + 2 * pi * mk) (a0 + k * arc + 2 * pi * mk + arc) t) := by
+  rw [keystone_wrap_iff _ _ _ _ ht, keystone_wrap_iff _ _ _ _ ht]
+  -- t + 2π e ∈ (lo, lo + arc) with e ∈ {0, 1}
+  have key : ∀ (p q : ℤ), (a0 + j * arc < t + 2 * pi * p ∧ t + 2 * pi * p < a0 + j * arc + arc) →
+      (a0 + k * arc < t + 2 * pi * q ∧ t + 2 * pi * q < a0 + k * arc + arc) → False := by
+    intro p q ⟨h1, h2⟩ ⟨h3, h4⟩
+    have hkj : (j : K) + 1 ≤ k := by exact_mod_cast hjk
+    have hkN : (k : K) + 1 ≤ N := by exact_mod_cast hk
+    have hj0 : (0 : K) ≤ j := Nat.cast_nonneg j
+    -- 2π (q − p) ∈ ((k − j − 1) arc, (k − j + 1) arc) ⊂ (0, 2π)
+    have lo' : 0 < 2 * pi * ((q - p : ℤ) : K) := by
+      push_cast
+      nlinarith [mul_nonneg (sub_nonneg.mpr hkj) harc.le]
+    have hi' : 2 * pi * ((q - p : ℤ) : K) < 2 * pi := by
+      push_cast
+      nlinarith [mul_nonneg (sub_nonneg.mpr hkN) harc.le, mul_nonneg hj0 harc.le]
+    have d1 : (0 : K) < ((q - p : ℤ) : K) := by
+      by_contra hc
+      have := mul_nonpos_of_nonneg_of_nonpos (by linarith : (0 : K) ≤ 2 * pi) (not_lt.mp hc)
+      linarith
+    have d2 : ((q - p : ℤ) : K) < 1 := by
+      by_contra hc
+      have := mul_le_mul_of_nonneg_left (not_lt.mp hc) (by linarith : (0 : K) ≤ 2 * pi)
+      linarith
+    have e1 : (0 : ℤ) < q - p := by exact_mod_cast d1
+    have e2 : q - p < (1 : ℤ) := by exact_mod_cast d2
+    omega
+  rintro ⟨(⟨a, b⟩ | ⟨a, b⟩), (⟨c, d⟩ | ⟨c, d⟩)⟩
+  · exact key (-mj) (-mk) ⟨by push_cast; linarith, by push_cast; linarith⟩ ⟨by push_cast; linarith, by push_cast; linarith⟩
+  · exact key (-mj) (1 - mk) ⟨by push_cast; linarith, by push_cast; linarith⟩ ⟨by push_cast; linarith, by push_cast; linarith⟩
+  · exact key (1 - mj) (-mk) ⟨by push_cast; linarith, by push_cast; linarith⟩ ⟨by push_cast; linarith, by push_cast; linarith⟩
+  · exact key (1 - mj) (1 - mk) ⟨by push_cast; linarith, by push_cast; linarith⟩ ⟨by push_cast; linarith, by push_cast; linarith⟩
+/-- non-vacuity of `keystone_ring_disjoint`: six keystones, `π ≈ 22/7`, arc `22/21` -/
+example : (0 : ℚ) < 22 / 7 ∧ (0 : ℚ) < 22 / 21 ∧ ((6 : ℕ) : ℚ) * (22 / 21) = 2 * (22 / 7) ∧ 0 < 1 ∧ 1 < 6 := by norm_num
 
 /-- non-vacuity: a keystone straddling the cut (`lo = 3 < π ≈ 22/7 < hi = 4`) owns an angle just below `−π + 1` through the
 wrap-around branch, and its follower `(4, 5)` does not -/
